@@ -284,6 +284,13 @@ def report(prop: str, tier: str, results: List[Dict[str, Any]], wall: float, ver
             continue
         violations.append({"source": "obligation", "g": g})
     for name, f in native_failures:
+        import re as _re
+        blob = json.dumps(f, default=str, ensure_ascii=False)
+        kn = next((k for k in known if k.get("native_match") and k.get("native_unit", "") in name
+                   and _re.search(k["native_match"], blob)), None)
+        if kn is not None:
+            known_hits.append(f"{kn['what']} [bounded unit {name}]")
+            continue
         violations.append({"source": "native", "unit": name, "failure": f})
     # a unit whose code left the verifier's subset is undecided; its bounded native replay (the inputs the contract's
     # counterexamples are replayed on) still runs against the real function, and a failing input there is a violation
